@@ -9,7 +9,13 @@
   * (second pass) local helpers (nested `def`) are followed with the enclosing scope visible; dicts with constant string keys (`dict(F=..., ...)`,
     `dict(zip(NAMES, arrays))`, dict comprehensions, `.items()`), constant strings held by loop variables, module-level tuples of names, `*args` of
     a tuple; a mask keeps the selector name it was created under (`A2`), so a selection by it is the same sub-space under any parameter / loop
-    variable name; an index vector built in an argument list is named after the parameter; `x = None` placeholders do not erase the other arm's type.
+    variable name; an index vector built in an argument list is named after the parameter; `x = None` placeholders do not erase the other arm's type;
+  * (fourth pass) masked stores spelled as library calls are typed by what each function does with the VALUES: np.place(arr, mask, vals) is the store
+    arr[mask] = vals (one value per selected entry); np.putmask / np.copyto(where=) need values with one entry per entry of the destination (np.putmask
+    repeats shorter values by position); np.put / x.put take positions (a boolean mask is read as the positions 0 and 1).  A proved mismatch is reported;
+    a call whose operand spaces cannot be typed is recorded in `unsure` (the rule reports ANALYSIS-ERROR: the value-level rules read all of them as
+    arr[sel] = vals).  np.take / .take / np.compress / .compress / np.extract are subscripts; the rows of np.zeros((k, n)) unpacked are arrays over the
+    space of n; library names are canonicalised under the module's import aliases.
 """
 from __future__ import annotations
 
